@@ -420,3 +420,44 @@ func verifHarnessC16LookupWatcher() {
 	assert("handle-registered", mapHas(s.active.f, name))
 	reach("end-ok")
 }
+
+// C15: several updaters on one secret — an install reaches every one of them, independently.
+func verifHarnessC15TwoUpdaters() {
+	verifEnvReset()
+	client := &verifClient{}
+	s := verifSymStore(1, client, nil)
+	assume(verifStoreInv(s))
+	s.active.f = map[string]Secret{}
+	name := nondetString("name")
+	assume(mapHas(s.active.m, name))
+	builds := []int{0, 0}
+	mk := func(i int) func([]byte) (*verifBuilt, error) {
+		return func(bs []byte) (*verifBuilt, error) {
+			builds[i]++
+			return &verifBuilt{from: append([]byte(nil), bs...)}, nil
+		}
+	}
+	u0, err0 := NewUpdater(verifBackground(), s, name, mk(0))
+	u1, err1 := NewUpdater(verifBackground(), s, name, mk(1))
+	assert("created", and(err0 == nil, err1 == nil))
+	us := []*Updater[*verifBuilt]{u0, u1}
+	owed := []bool{false, false}
+	for step := 0; step < param("steps"); step++ {
+		ev := nondetChoice("event", 3)
+		if ev == 2 {
+			nv := &api.SecretValue{Value: nondetSeq("new.val"), Version: api.SecretVersion(nondetU32("new.ver"))}
+			s.applyUpdates(map[string]*api.SecretValue{name: nv})
+			owed[0], owed[1] = true, true
+			continue
+		}
+		b0 := builds[ev]
+		got := us[ev].Get()
+		if owed[ev] {
+			assert("each-updater-sees-the-install", and(builds[ev] == b0+1, bytesEq(got.from, s.active.m[name].Secret.Value)))
+		} else {
+			assert("no-install-no-rebuild", builds[ev] == b0)
+		}
+		owed[ev] = false
+	}
+	reach("end")
+}
